@@ -73,7 +73,10 @@ mod dialer_select;
 mod length_delimited;
 mod listener_select;
 mod negotiated;
+#[cfg(not(feature = "verif"))]
 mod protocol;
+#[cfg(feature = "verif")]
+pub mod protocol;
 
 use crate::error;
 pub use crate::multistream_select::{
